@@ -137,17 +137,14 @@ pub trait NamedConceptConfiguration: Default + Clone + Debug + Send {
     fn extract_name_from_file(&self, value: &FileName) -> Option<FileName> {
         let mut file = *value;
 
-        if !fatal_panic!(from self, when file.strip_prefix(self.get_prefix().as_bytes()),
-                    "Stripping the prefix \"{}\" from the file name \"{}\" leads to invalid content.",
-                    self.get_prefix(), file)
-        {
+        // A file whose name does not carry prefix and suffix, or whose remainder is not a valid
+        // file name (e.g. a file named exactly prefix + suffix), does not belong to this concept.
+        // It must be skipped, not treated as a fatal error - the directory is shared with others.
+        if !matches!(file.strip_prefix(self.get_prefix().as_bytes()), Ok(true)) {
             return None;
         }
 
-        if !fatal_panic!(from self, when file.strip_suffix(self.get_suffix().as_bytes()),
-                    "Stripping the suffix \"{}\" from the file name \"{}\" leads to invalid content.",
-                    self.get_suffix(), file)
-        {
+        if !matches!(file.strip_suffix(self.get_suffix().as_bytes()), Ok(true)) {
             return None;
         }
 
